@@ -89,6 +89,19 @@ class ListV(V):
         return 'ListV(%r)' % (self.items,)
 
 
+class NamedListV(ListV):
+    """a list a model hands out under a name of its own (the stream a recorded pipeline call returns): it can be iterated like any
+    list; in messages and comparisons of provenance it is its name"""
+    __slots__ = ('label',)
+
+    def __init__(self, label, items, lazy=False):
+        ListV.__init__(self, items, lazy)
+        self.label = label
+
+    def __repr__(self):
+        return 'NamedListV(%s)' % self.label
+
+
 class TupleV(V):
     __slots__ = ('items',)
 
@@ -3053,6 +3066,8 @@ def _prov(v):
         return v.describe()
     if isinstance(v, DocV):
         return D.show(v.t)
+    if isinstance(v, NamedListV):
+        return v.label
     if isinstance(v, (ListV, TupleV)):
         return '[' + ','.join(_prov(x) for x in v.items) + ']'
     if isinstance(v, TypeV):
